@@ -1090,6 +1090,7 @@ class TreeProfile(Translator):
     TYPE_MAP = {"K": "α", "V": "β", "Register": "Bool", "Ancestor": "Ancestor", "Vec<Ancestor>": "List Ancestor"}
     FIELDS = {"Root": "root", "Size": "size", "Capacity": "cap", "FreeListHead": "flh", "Sequence": "seq"}
     REGS = {"Left": "left", "Right": "right", "Height": "height"}
+    BRANCH_OK = True
     REC_FIELDS = {"key": "key", "value": "val"}
 
     def __init__(self, src, wanted, bits):
@@ -1193,6 +1194,17 @@ class TreeProfile(Translator):
         # arm is unreachable and is dropped
         def visit(n):
             if n.kind == "match":
+                # `Register::Left | Register::Right => body` (+ an unreachable `_ => panic!`): both branch values take
+                # the same arm, so the match is its body
+                arms = [a for a in n.arms if not (len(a[0]) == 1 and a[0][0].kind == "pwild" and a[2].kind == "macro" and a[2].name == "panic")]
+                if len(arms) == 1 and arms[0][1] is None and len(arms[0][0]) == 2 and all(p.kind == "pctor" for p in arms[0][0]) \
+                        and sorted(tuple(p.path) for p in arms[0][0]) == [("Register", "Left"), ("Register", "Right")]:
+                    body = arms[0][2]
+                    if body.kind != "block":
+                        body = N("block", stmts=[], tail=body)
+                    n.__dict__.clear()
+                    n.__dict__.update(body.__dict__)
+                    return
                 heads = [tuple(a[0][0].path) if (len(a[0]) == 1 and a[0][0].kind == "pctor") else None for a in n.arms]
                 if ("Register", "Left") in heads and ("Register", "Right") in heads:
                     n.arms = [a for a in n.arms if not (len(a[0]) == 1 and a[0][0].kind == "pwild" and a[2].kind == "macro" and a[2].name == "panic")]
@@ -1212,6 +1224,16 @@ class TreeProfile(Translator):
         if a.kind == "path" and a.path[0] == "Register" and a.path[1] in self.REGS:
             return self.REGS[a.path[1]]
         raise Untranslatable(f"register selector {a!r}")
+
+    def reg_var(self, a):
+        """A register selected by a local variable: a branch value (Bool: false = Left, true = Right; never Height, see
+        check_height_use). Returns the Lean name of the variable, or None."""
+        if a.kind == "path" and len(a.path) == 1 and a.path[0] != "self" and hasattr(self, "BRANCH_OK"):
+            try:
+                return self.lookup(a.path[0])
+            except Exception:  # noqa: BLE001
+                return None
+        return None
 
     def field_name(self, a):
         if a.kind == "path" and a.path[0] == "Field" and a.path[1] in self.FIELDS:
@@ -1234,6 +1256,9 @@ class TreeProfile(Translator):
         if e.name == "get_register":
             idx = self.record_of(e.recv, hoist)
             if idx is not None:
+                b = self.reg_var(e.args[0])
+                if b is not None:
+                    return f"(if {b} then (rd d m {self.atom(idx)}).right else (rd d m {self.atom(idx)}).left)"
                 return f"(rd d m {self.atom(idx)}).{self.reg_name(e.args[0])}"
         if e.name == "len" and self.is_nodes(e.recv):
             return "m.recs.length"
@@ -1277,6 +1302,11 @@ class TreeProfile(Translator):
         if e.name == "set_register":
             idx = self.record_of(e.recv, True)
             if idx is not None:
+                b = self.reg_var(e.args[0])
+                if b is not None:
+                    v = self.ex(e.args[1], hoist=True)
+                    self.em.w(f"m := wr m {self.atom(idx)} fun r => if {b} then {{ r with right := {v} }} else {{ r with left := {v} }}")
+                    return True
                 r = self.reg_name(e.args[0])
                 v = self.ex(e.args[1], hoist=True)
                 self.em.w(f"m := wr m {self.atom(idx)} fun r => {{ r with {r} := {v} }}")
